@@ -99,5 +99,9 @@ pub mod python;
 // -- Numerical methods --
 pub mod methods;
 
+/// Verification hook (add-only): decision-point event sink, compiled only with `--cfg ivp_verif`.
+#[cfg(ivp_verif)]
+pub mod verif_trace;
+
 // -- User convenience / re-exports --
 pub mod prelude;
